@@ -217,3 +217,22 @@ Definition asm_wf_frags_check (fs : list sfrag) : bool :=
 
 Definition asm_wf_check (s : asm_schedule) : bool :=
   asm_wf_frags_check (asm_frags s) && forallb (fun i => match i with ISkipped e => skippable e | _ => true end) s.
+
+(* ---------------------------------------------------------------- backpressure: a BOUNDED queue (NMEAQueue(maxsize=n), puts
+   that do not wait for ever).  Per line the environment decides whether a put would be accepted.  What the properties
+   demand then: a message that is due at a line is delivered there iff the put is accepted -- the very message the
+   unbounded reader delivers, wrapper included --, otherwise queue.Full is raised there and the message is dropped as a
+   whole; nothing is delivered or refused anywhere else.  [per] = what the unbounded reader delivers per line. *)
+
+Fixpoint spec_accepted {A} (accepted : list bool) (per : list (list A)) : list (list A) :=
+  match accepted, per with
+  | a :: acc, d :: ds => (if a then d else []) :: spec_accepted acc ds
+  | _, _ => []
+  end.
+
+(* the lines at which queue.Full is raised *)
+Fixpoint spec_refused {A} (accepted : list bool) (per : list (list A)) : list bool :=
+  match accepted, per with
+  | a :: acc, d :: ds => (negb a && has_delivery d) :: spec_refused acc ds
+  | _, _ => []
+  end.
